@@ -12,6 +12,9 @@
 // rules; actions allow / deny / pass; ip_version 4, 6 or unset.  Some IP sets and port lists are larger
 // than the 4000-entries-per-HNS-rule chunk so that one rule is split over several HNS rules.
 //
+// Judged twice per packet: (a) every per-tier list exactly as GetPolicySetRules returns it (first matching
+// rule of the tier's policies: allow / block / pass, else the end-of-tier rule) and (b) the flattened,
+// re-prioritised endpoint list against refpolicy.Endpoint.
 // Oracle: an evaluator of HNS ACL semantics written here (a rule matches when protocol (256 = any),
 // local/remote address lists and local/remote port lists all match; the matching rule with the lowest
 // priority value decides; if several matching rules share that priority they must agree on the action,
@@ -87,7 +90,8 @@ type gen struct {
 var cidrPool = []string{"10.0.0.0/8", "10.1.0.0/16", "10.1.2.0/24", "10.1.2.3/32", "10.2.0.0/15", "192.168.0.0/16", "192.168.7.0/24",
 	"172.16.0.0/12", "0.0.0.0/0", "10.1.2.128/25", "10.200.0.0/30", "192.168.7.77/32"}
 var addrPool = []string{"10.1.2.3", "10.1.2.4", "10.1.2.200", "10.1.3.1", "10.2.0.1", "10.3.255.255", "10.200.0.2", "10.200.0.4", "192.168.7.77",
-	"192.168.7.78", "192.168.8.1", "172.16.5.5", "172.32.0.1", "8.8.8.8", "11.0.0.1", "10.9.0.5", "10.9.1.7"}
+	"192.168.7.78", "192.168.8.1", "172.16.5.5", "172.32.0.1", "8.8.8.8", "11.0.0.1", "10.9.0.5", "10.9.1.7",
+	"10.9.15.200", "10.9.16.1", "10.9.31.5", "10.9.40.1"} // 10.9.x.y: members of the big IP sets, in different 4000-entry chunks
 
 func (g *gen) newNetSet(big bool) string {
 	id := fmt.Sprintf("s:set%d", len(g.sets))
@@ -467,13 +471,51 @@ func run(c *harness.Case) {
 		ref.Profiles = nil
 	}
 
+	type tierList struct {
+		name  string
+		rules []*hns.ACLPolicy // exactly what GetPolicySetRules returned (copied before flattening mutates it)
+		ref   []*proto.Rule    // the tier's rules for the direction, in policy order
+		drop  bool
+	}
+	var perTier map[bool][]tierList
 	build := func(inbound bool) ([]*hns.ACLPolicy, error) {
 		var lists [][]*hns.ACLPolicy
+		if perTier == nil {
+			perTier = map[bool][]tierList{}
+		}
+		perTier[inbound] = nil
+		snapshot := func(name string, ids []string, rules []*hns.ACLPolicy, drop bool) {
+			tl := tierList{name: name, drop: drop}
+			for _, r := range rules {
+				cp := *r
+				tl.rules = append(tl.rules, &cp)
+			}
+			for _, id := range ids {
+				var rs []*proto.Rule
+				if p := policies[id]; p != nil {
+					rs = p.OutboundRules
+					if inbound {
+						rs = p.InboundRules
+					}
+				} else if p := profiles[id]; p != nil {
+					rs = p.OutboundRules
+					if inbound {
+						rs = p.InboundRules
+					}
+				}
+				tl.ref = append(tl.ref, rs...)
+			}
+			perTier[inbound] = append(perTier[inbound], tl)
+		}
 		for _, t := range tiers {
-			lists = append(lists, ps.GetPolicySetRules(t.pols, inbound, t.defaultAction != "Pass"))
+			l := ps.GetPolicySetRules(t.pols, inbound, t.defaultAction != "Pass")
+			snapshot(t.name, t.pols, l, t.defaultAction != "Pass")
+			lists = append(lists, l)
 		}
 		if len(lists) == 0 || !hasDefault {
-			lists = append(lists, ps.GetPolicySetRules(profIDs, inbound, true))
+			l := ps.GetPolicySetRules(profIDs, inbound, true)
+			snapshot("profiles", profIDs, l, true)
+			lists = append(lists, l)
 		}
 		flat := windataplane.VerifFlattenTiers(lists)
 		windataplane.VerifRewritePriorities(flat, policysets.PolicyRuleMaxPriority)
@@ -603,6 +645,42 @@ func run(c *harness.Case) {
 						break
 					}
 				}
+				// (a) every per-tier list, exactly as GetPolicySetRules returned it, evaluated by priority
+				for _, tl := range perTier[inbound] {
+					res := refpolicy.EvalRules(tl.ref, &pkt, sets)
+					want := "Block"
+					switch res.Action {
+					case refpolicy.Allow:
+						want = "Allow"
+					case refpolicy.Deny:
+						want = "Block"
+					case refpolicy.Pass:
+						want = string(policysets.ActionPass)
+					default:
+						if !tl.drop {
+							want = string(policysets.ActionPass)
+						}
+					}
+					act, prio, amb, err := hnsVerdict(tl.rules, inbound, &pkt)
+					c.Count("tier_level_judgements", 1)
+					if err != nil || amb || act != want {
+						detail["tier"] = tl.name
+						detail["packet"] = pkt.String()
+						detail["hns_rules"] = renderRules(tl.rules, 60)
+						detail["proto_rules"] = dumpRules(tl.ref)
+						switch {
+						case err != nil:
+							c.Violationf("malformed-hns-rule", detail, "%v", err)
+						case amb:
+							c.Violationf("equal-priority-rules-disagree", detail, "tier %s, packet %s: matching HNS rules at priority %d have different actions, so the verdict depends on HNS's tie-break",
+								tl.name, pkt.String(), prio)
+						default:
+							c.Violationf("tier-rule-list-wrong-verdict", detail, "tier %s, packet %s: first matching policy rule says %s, the rules returned by GetPolicySetRules give %s at priority %d",
+								tl.name, pkt.String(), want, act, prio)
+						}
+						return false
+					}
+				}
 				var d refpolicy.Decision
 				if inbound {
 					d = refpolicy.Endpoint(ref, refpolicy.Ingress, refpolicy.KindNormal, &pkt, sets)
@@ -710,6 +788,6 @@ func main() {
 		},
 		Run: run,
 		Floors: map[string]int64{"packets_judged": 50000, "packets_allowed": 5000, "packets_denied": 5000, "packets_decided_by_a_rule": 5000, "hns_rules": 10000,
-			"ipset_updates": 500, "policy_sets_recomputed": 300, "big_ip_sets": 5, "big_port_lists": 5},
+			"tier_level_judgements": 100000, "ipset_updates": 500, "policy_sets_recomputed": 300, "big_ip_sets": 5, "big_port_lists": 5},
 	})
 }
